@@ -40,6 +40,16 @@ func ruleMustCallOK(c *Ctx, r *Report, clause string, fnKey string, callee strin
 	r.add(clause, "mustcall", fnKey+"->"+callee, desc, []string{fnKey, callee}, append(sites, c.W.pos(fi.Decl.Pos())), v)
 }
 
+// ruleErrPropagates: a failure of callee inside fn always ends in a failure exit of fn.
+func ruleErrPropagates(c *Ctx, r *Report, clause, fnKey, callee string, resultIdx int, desc string) {
+	fi := need(c, r, clause, fnKey)
+	if fi == nil {
+		return
+	}
+	sites, v := c.W.errPropagates(fi.SSA, nameIs(callee), resultIdx, callee)
+	r.add(clause, "errprop", fnKey+"<-"+callee, desc, []string{fnKey, callee}, append(sites, c.W.pos(fi.Decl.Pos())), v)
+}
+
 // ruleMustCall: every non-failure exit passes through a call to callee (result untested).
 func ruleMustCall(c *Ctx, r *Report, clause string, fnKey string, callee string, desc string) {
 	fi := need(c, r, clause, fnKey)
